@@ -14,6 +14,7 @@ import GrcovModel.Lemmas.LcovIterate
 import GrcovModel.Props.C04
 import GrcovModel.Props.C05Rewrite
 import GrcovModel.Props.C05Cli
+import GrcovModel.Props.C05Run
 namespace Grcov.Props.C05
 open Grcov AList Grcov.Lcov Grcov.Lcov.Spec
 
